@@ -367,7 +367,7 @@ def streams(tier, rng):
     ids, flags = h7._rand_conf(rng, crc=0, large=1)
     room = 65535 - 8
     cases.append((1510, [ids, flags, [h7._rand_off(rng, 1)], [0xFF] * room, [0]]))
-    for n in (list(range(0, 1101, 1 if big else 7)) + [255, 256, 257, 511, 512, 513, 1023, 1024, 1025]):
+    for n in list(range(0, 1101)) + [4096, 65536]:
         k = rng.randrange(8)
         b = _valid_packed(rng, k, crc=0)[1]
         cases.append((1500, [b + [rng.randrange(256) for _ in range(n)]]))
@@ -473,9 +473,9 @@ def _check_holder_history(ops, body):
             if exp is None or out != exp:
                 return ("C12/PduHolder.inspectors/value", "%s: holder of class %s reports %s" % (where, held, out))
         elif k == 4 and status[0] == 0:
-            exp = 0 if held is None else (state[5][1] if held == 0 else None)
-            if held == 0 and out != [state[5][1]] or held is None and out != [0]:
-                return ("C12/PduHolder.packet_len/value", "%s: %s, the held PDU reports %s" % (where, out, exp))
+            exp = 0 if held is None else state[5][1] if held == 0 else len(clean) - 1 if clean is not None and clean[0] == 0 else None
+            if exp is not None and out != [exp]:
+                return ("C12/PduHolder.packet_len/value", "%s: %s, the held PDU has %s octets" % (where, out, exp))
         elif k == 5 and status[0] == 0:
             exp = [] if held is None else clean[1:] if clean is not None and clean[0] == 0 else None
             if held == 0 and exp is None:
@@ -554,6 +554,11 @@ def oracle(case, ires, sres):
             return ("C12/%s.pack/layout" % NAMES[k], "packed octets differ from the standard's layout")
         if ires[3] != [0] + exp:
             return ("C12/PduFactory.from_raw/repack", "%s from the factory re-packs to %s, original %s" % (NAMES[k], ires[3][:40], exp[:40]))
+        al = _alone(exp)
+        if al is not None:
+            m = h5.alias_probe(PduFactory.from_raw, _holder_state, exp, al[0])
+            if m:
+                return ("C12/PduFactory.from_raw/aliases-input-buffer", m)
         return None
     if op in (1500, 1505):
         b = a[0]
